@@ -71,19 +71,20 @@ func IDs() []string {
 }
 
 type workerOut struct {
-	Execs       int64            `json:"execs"`
-	Transitions int64            `json:"transitions"`
-	Points      int64            `json:"points"`
-	Skipped     map[string]int64 `json:"skipped"`
-	Failing     int64            `json:"failing"`
-	Violations  []*Violation     `json:"violations"`
-	Samples     []string         `json:"samples"`
-	Exhaustive  bool             `json:"exhaustive"`
-	CapHit      string           `json:"cap_hit"`
-	Internal    string           `json:"internal"`
-	MaxDevs     int              `json:"max_devs"`
-	ShrinkExecs int64            `json:"shrink_execs"`
-	WallS       float64          `json:"wall_s"`
+	Execs         int64            `json:"execs"`
+	Transitions   int64            `json:"transitions"`
+	Points        int64            `json:"points"`
+	Skipped       map[string]int64 `json:"skipped"`
+	Failing       int64            `json:"failing"`
+	Violations    []*Violation     `json:"violations"`
+	Samples       []string         `json:"samples"`
+	Exhaustive    bool             `json:"exhaustive"`
+	CapHit        string           `json:"cap_hit"`
+	Internal      string           `json:"internal"`
+	MaxDevs       int              `json:"max_devs"`
+	ShrinkExecs   int64            `json:"shrink_execs"`
+	WallS         float64          `json:"wall_s"`
+	DigestsCapped bool             `json:"digests_capped"`
 }
 
 func writeDigests(path string, m map[uint64]struct{}) error {
@@ -200,7 +201,7 @@ func WorkerMain(id, tier string, shardIdx, shardN int, outBase string) int {
 	wo := workerOut{
 		Execs: res.Execs, Transitions: res.Transitions, Points: res.Points, Skipped: res.Skipped,
 		Failing: res.Failing, Violations: res.Violations, Samples: res.Samples, Exhaustive: res.Exhaustive,
-		CapHit: res.CapHit, Internal: res.Internal, MaxDevs: res.MaxDevs, ShrinkExecs: res.ShrinkExecs,
+		CapHit: res.CapHit, DigestsCapped: res.DigestsCapped, Internal: res.Internal, MaxDevs: res.MaxDevs, ShrinkExecs: res.ShrinkExecs,
 		WallS: time.Since(start).Seconds(),
 	}
 	if err := writeDigests(outBase+".states", res.States); err != nil {
@@ -382,6 +383,7 @@ func RunCheck(id, tier, verifDir, self string) int {
 	wg.Wait()
 
 	statesSet, nontrivSet := &digestSet{}, &digestSet{}
+	digestsCapped := false
 	var tot workerOut
 	tot.Exhaustive = true
 	tot.Skipped = map[string]int64{}
@@ -446,6 +448,9 @@ func RunCheck(id, tier, verifDir, self string) int {
 			if o.CapHit != "" {
 				caps = append(caps, fmt.Sprintf("worker %d: %s", i, o.CapHit))
 			}
+		}
+		if o.DigestsCapped {
+			digestsCapped = true
 		}
 		if o.Internal != "" {
 			internal = append(internal, fmt.Sprintf("worker %d: %s", i, o.Internal))
@@ -566,6 +571,9 @@ func RunCheck(id, tier, verifDir, self string) int {
 	cov["rule"] = ck.Rule
 	cov["samples"] = ss
 	cov["states"] = nStates
+	if digestsCapped {
+		cov["states_note"] = "distinct-state and distinct-nontrivial figures are lower bounds: a worker stops recording digests after 6,000,000"
+	}
 	cov["transitions"] = tot.Transitions + tot.Points
 	cov["api_calls_on_implementation"] = tot.Transitions
 	cov["choice_edges"] = tot.Points
